@@ -262,16 +262,49 @@ func (m *moCtx) stmt(s ast.Stmt) bool {
 		if x.Tag != nil && !m.pureExpr(x.Tag) {
 			return false
 		}
+		// a switch on the range key itself with constant cases: each clause runs for at most one
+		// iteration (a map holds a key once), so a plain store into a location that no other clause
+		// writes is the same whatever the order
+		onKey := false
+		if tid, ok := ast.Unparen(x.Tag).(*ast.Ident); ok && x.Tag != nil && m.key != nil && m.info.Uses[tid] == m.key {
+			onKey = true
+		}
+		written := map[string]int{}
+		if onKey {
+			for _, cl := range x.Body.List {
+				for _, st := range cl.(*ast.CaseClause).Body {
+					if as, ok := st.(*ast.AssignStmt); ok && as.Tok == token.ASSIGN && len(as.Lhs) == 1 {
+						written[types.ExprString(as.Lhs[0])]++
+					}
+				}
+			}
+		}
+		prevFalls := false
 		for _, cl := range x.Body.List {
 			cc := cl.(*ast.CaseClause)
+			allConst := len(cc.List) > 0 && !prevFalls // a clause that is fallen into runs for two keys
+			prevFalls = false
+			if k := len(cc.Body); k > 0 {
+				if br, ok := cc.Body[k-1].(*ast.BranchStmt); ok && br.Tok == token.FALLTHROUGH {
+					prevFalls = true
+				}
+			}
 			for _, v := range cc.List {
 				if !m.pureExpr(v) {
 					return false
+				}
+				if tv, ok := m.info.Types[v]; !ok || tv.Value == nil {
+					allConst = false
 				}
 			}
 			for _, st := range cc.Body {
 				if br, ok := st.(*ast.BranchStmt); ok && (br.Tok == token.FALLTHROUGH || (br.Tok == token.BREAK && br.Label == nil)) {
 					continue
+				}
+				if as, ok := st.(*ast.AssignStmt); ok && onKey && allConst && len(cc.List) == 1 && as.Tok == token.ASSIGN && len(as.Lhs) == 1 && len(as.Rhs) == 1 {
+					if _, isSel := as.Lhs[0].(*ast.SelectorExpr); isSel && written[types.ExprString(as.Lhs[0])] == 1 && m.pureExpr(as.Rhs[0]) {
+						continue
+					}
 				}
 				if !m.stmt(st) {
 					return false
@@ -446,6 +479,36 @@ func (m *moCtx) sortedAfter(fd *ast.FuncDecl, rs *ast.RangeStmt) bool {
 		if first == token.NoPos {
 			continue // never used afterwards
 		}
+		// handed over, as it is, to a struct field that the package only ever searches for the one
+		// element satisfying a test: the order of that slice cannot be observed
+		handed := false
+		ast.Inspect(fd.Body, func(n ast.Node) bool {
+			as, ok := n.(*ast.AssignStmt)
+			if !ok || len(as.Lhs) != 1 || len(as.Rhs) != 1 || as.Pos() > first || first > as.End() {
+				return true
+			}
+			if rid, ok := ast.Unparen(as.Rhs[0]).(*ast.Ident); ok && m.info.Uses[rid] == sl {
+				if lse, ok := as.Lhs[0].(*ast.SelectorExpr); ok {
+					if fv, ok := m.info.Uses[lse.Sel].(*types.Var); ok && fv.IsField() && m.searchOnlyField(fv) {
+						handed = true
+					}
+				}
+			}
+			return true
+		})
+		if handed {
+			// and not used again after the hand-over
+			again := false
+			ast.Inspect(fd.Body, func(n ast.Node) bool {
+				if id, ok := n.(*ast.Ident); ok && m.info.Uses[id] == sl && id.Pos() > first {
+					again = true
+				}
+				return true
+			})
+			if !again {
+				continue
+			}
+		}
 		call, _ := firstNode.(*ast.CallExpr)
 		okSort := false
 		if call != nil {
@@ -498,6 +561,16 @@ func (e *Env) RMapOrder(filter func(mapRange) bool) {
 					}
 					if inWalk {
 						why, frozen = mapOrderFrozen[mr.pkg.PkgPath+".Walk "+types.ExprString(mr.rs.X)]
+					}
+				}
+			}
+			if !frozen && mr.pkg.PkgPath == load.PkgDst && (e.Prog.File(mr.fd.Pos()) == "resolve.go" || strings.HasSuffix(e.Prog.File(mr.fd.Pos()), "/resolve.go")) {
+				// the package builder forked from go/ast (resolve.go), whichever function of that
+				// file the loop lives in: ranges over the files of a package and over the objects
+				// of a scope have upstream's map-order dependence (R-FORK keeps the code identical)
+				if mt, ok := info.TypeOf(mr.rs.X).Underlying().(*types.Map); ok {
+					if _, en := namedOf(mt.Elem()); en == "Object" || en == "File" {
+						why, frozen = "fork of go/ast.NewPackage (resolve.go): same map-order dependence as upstream; kept identical by R-FORK", true
 					}
 				}
 			}
